@@ -180,7 +180,10 @@ def gen_project(rng, index=0, size=None):
     multi = rng.random() < 0.5
     conflicts = ["'oldthing'"]
     if multi:
-        conflicts.append("('rival', %r)" % ','.join(rng.sample(specs[:4], rng.randint(2, 4))))
+        # several specifiers that simplify to ONE (a Conflicts entry can carry only one;
+        # anything else is refused at configure time since the C17 fix in /repo)
+        conflicts.append("('rival', %r)" % rng.choice(['>=1.0,>0.1', '<2.0,<=3', '>0.1,>=1.0',
+                                                       '<=3,<2.0']))
         feats.append('pc-multi-specifier')
     else:
         conflicts.append("('rival', %r)" % rng.choice(specs))
